@@ -91,6 +91,20 @@ def _key(v: t.Any) -> str:
     return repr(v)
 
 
+def _identity_free(v: t.Any, _d: int = 0) -> bool:
+    """the rendering `_key` of v determines v: symbols, plain constants and containers of them (an interpreted object,
+    function or generator is rendered by its class / name only, so two of them may share a key)."""
+    if isinstance(v, Sym):
+        return _d < 12 and all(_identity_free(a, _d + 1) for a in v.args)
+    if v is None or isinstance(v, (str, bytes, int, float, bool)):
+        return True
+    if isinstance(v, (list, tuple, set, frozenset)):
+        return _d < 12 and all(_identity_free(a, _d + 1) for a in v)
+    if isinstance(v, dict):
+        return _d < 12 and all(_identity_free(k, _d + 1) and _identity_free(x, _d + 1) for k, x in v.items())
+    return False
+
+
 class Obj:
     """instance of a class defined in the analysed package."""
 
@@ -287,9 +301,16 @@ class Oracle:
             if a is not None:
                 self.assumed.append((term.key(), a))
                 return a
+        k = term.key()
+        if _identity_free(term):
+            # the same condition on the same opaque values was decided earlier on this path (a test evaluated twice,
+            # once by a lazy filter and once by the loop body, ...): it has the same answer, and is not a new fork
+            for k0, v0, _ in self.trace:
+                if k0 == k:
+                    return v0
         i = len(self.trace)
         v = self.prefix[i] if i < len(self.prefix) else True
-        self.trace.append((term.key(), v, term))
+        self.trace.append((k, v, term))
         return v
 
 
@@ -869,8 +890,24 @@ class World:
                 raise Raised(ExcObj(StopIteration, ()))
         if fn is builtins.iter and len(args) == 1 and isinstance(args[0], GenVal):
             return args[0]
+        if fn is builtins.iter and len(args) == 2 and not kwargs and isinstance(args[0], (FuncVal, ClsVal, Obj)):
+            # iter(callable, sentinel): call until the result equals the sentinel, one call per element pulled
+            f0, sentinel = args
+
+            def g_sentinel() -> t.Iterator[t.Any]:
+                while True:
+                    v = self.call(f0, [], {}, node)
+                    if v is sentinel or self.truth(self.equals(v, sentinel, node), node):
+                        return
+                    yield v
+
+            return GenVal(g_sentinel())
         if _is_re_match_call(fn, fq) and not (deep_concrete(args) and deep_concrete(kwargs)):
             return self.sym_rematch(fn, fq, args, kwargs, node)
+        if (fq.startswith("itertools.") or getattr(getattr(fn, "__self__", None), "__module__", None) == "itertools") and not (deep_concrete(args) and deep_concrete(kwargs)):
+            lazy = self.lazy_itertools(fn, fq, args, kwargs, node)
+            if lazy is not None:
+                return lazy
         if fn in (builtins.list, builtins.tuple, builtins.set, builtins.frozenset, builtins.dict, builtins.enumerate, builtins.zip, builtins.iter, builtins.reversed, builtins.sorted, builtins.any, builtins.all, builtins.sum, builtins.min, builtins.max) or fq in ("builtins.str.join", "builtins.list.extend", "builtins.set.update", "builtins.dict.update", "builtins.dict.fromkeys"):
             # materialise interpreted generators handed to real consumers
             args = [list(a.it) if isinstance(a, GenVal) else a for a in args]
@@ -934,6 +971,145 @@ class World:
         if fq in self.log_fqs:
             self.calls.append((fq, tuple(args), dict(kwargs), site, res))
         return res
+
+    def lazy_itertools(self, fn: t.Any, fq: str, args: list, kwargs: dict, node: ast.AST | None) -> t.Any:
+        """the itertools iterators over interpreted values: a GenVal that pulls from its sources and applies its
+        (interpreted or real) callables one element at a time, exactly as lazily as the real ones do.  ``None`` when
+        the function / argument shape is not one modelled here (the caller then goes on to the generic paths)."""
+        import itertools as _it
+
+        if any(isinstance(a, Sym) for a in list(args) + list(kwargs.values())):
+            return None  # an opaque iterable / bound: stays a term as before
+        it = lambda v: self.iterate(v, node)  # noqa: E731
+        call = lambda f, xs: self.call(f, list(xs), {}, node)  # noqa: E731
+        truth = lambda v: self.truth(v, node)  # noqa: E731
+
+        def callable_ok(f: t.Any) -> bool:
+            return isinstance(f, (FuncVal, ClsVal, Obj)) or (not isinstance(f, (Sym, GenVal, ExcObj, CodeVal, SuperVal)) and callable(f))
+
+        def nxt(src: t.Iterator[t.Any]) -> tuple[bool, t.Any]:
+            try:
+                return True, next(src)
+            except StopIteration:
+                return False, None
+
+        if fn in (_it.takewhile, _it.dropwhile, _it.filterfalse) and len(args) == 2 and not kwargs:
+            pred, src = args[0], it(args[1])
+            if pred is None and fn is _it.filterfalse:
+                pred = builtins.bool
+            if not callable_ok(pred):
+                raise self.nu(f"{fq} with predicate {pred!r}", node)
+
+            def g_pred() -> t.Iterator[t.Any]:
+                if fn is _it.takewhile:
+                    for x in src:
+                        if not truth(call(pred, [x])):
+                            return
+                        yield x
+                elif fn is _it.dropwhile:
+                    for x in src:
+                        if not truth(call(pred, [x])):
+                            yield x
+                            break
+                    yield from src
+                else:
+                    for x in src:
+                        if not truth(call(pred, [x])):
+                            yield x
+
+            return GenVal(g_pred())
+        if fn is _it.starmap and len(args) == 2 and not kwargs and callable_ok(args[0]):
+            f0, src = args[0], it(args[1])
+            return GenVal(call(f0, list(it(xs))) for xs in src)
+        if fn is _it.chain and not kwargs:
+            srcs = list(args)
+            return GenVal(x for s in srcs for x in it(s))
+        if getattr(fn, "__self__", None) is _it.chain and getattr(fn, "__name__", "") == "from_iterable" and len(args) == 1 and not kwargs:
+            outer = it(args[0])
+            return GenVal(x for s in outer for x in it(s))
+        if fn is _it.islice and 2 <= len(args) <= 4 and not kwargs and deep_concrete(args[1:]):
+            try:
+                return GenVal(_it.islice(it(args[0]), *args[1:]))
+            except (TypeError, ValueError) as e:
+                raise Raised(ExcObj(type(e), e.args))
+        if fn is _it.zip_longest and set(kwargs) <= {"fillvalue"}:
+            srcs2 = [it(a) for a in args]
+            fill = kwargs.get("fillvalue")
+
+            def g_zl() -> t.Iterator[t.Any]:
+                live = [True] * len(srcs2)
+                while srcs2:
+                    row = []
+                    for i, s in enumerate(srcs2):
+                        ok, v = nxt(s) if live[i] else (False, None)
+                        if not ok:
+                            live[i] = False
+                            v = fill
+                        row.append(v)
+                    if not any(live):
+                        return
+                    yield tuple(row)
+
+            return GenVal(g_zl())
+        if fn is _it.accumulate and len(args) in (1, 2) and set(kwargs) <= {"func", "initial"} and not (len(args) == 2 and "func" in kwargs):
+            f1 = args[1] if len(args) == 2 else kwargs.get("func")
+            if f1 is None or not callable_ok(f1):
+                return None
+            src1 = it(args[0])
+            initial = kwargs.get("initial")
+
+            def g_acc() -> t.Iterator[t.Any]:
+                total = initial
+                if total is None:
+                    ok, total = nxt(src1)
+                    if not ok:
+                        return
+                yield total
+                for x in src1:
+                    total = call(f1, [total, x])
+                    yield total
+
+            return GenVal(g_acc())
+        if fn is _it.pairwise and len(args) == 1 and not kwargs:
+            src3 = it(args[0])
+
+            def g_pw() -> t.Iterator[t.Any]:
+                ok, a = nxt(src3)
+                if not ok:
+                    return
+                for b in src3:
+                    yield (a, b)
+                    a = b
+
+            return GenVal(g_pw())
+        if fn is _it.compress and len(args) == 2 and not kwargs:
+            data, sel = it(args[0]), it(args[1])
+            return GenVal(d for d, s in zip(data, sel) if truth(s))
+        if fn is _it.groupby and len(args) in (1, 2) and set(kwargs) <= {"key"} and not (len(args) == 2 and "key" in kwargs):
+            keyf = args[1] if len(args) == 2 else kwargs.get("key")
+            if keyf is not None and not callable_ok(keyf):
+                raise self.nu(f"{fq} with key {keyf!r}", node)
+            src4 = it(args[0])
+
+            def g_gb() -> t.Iterator[t.Any]:
+                # the groups are collected run by run (one run ahead of the real, fully lazy object: the same values
+                # in the same order; a key function with side effects is outside the model anyway)
+                ok, x = nxt(src4)
+                while ok:
+                    k = x if keyf is None else call(keyf, [x])
+                    run = [x]
+                    while True:
+                        ok, x = nxt(src4)
+                        if not ok:
+                            break
+                        k2 = x if keyf is None else call(keyf, [x])
+                        if not truth(self.equals(k, k2, node)):
+                            break
+                        run.append(x)
+                    yield (k, GenVal(iter(run)))
+
+            return GenVal(g_gb())
+        return None
 
     def sym_format(self, fmt: str, args: list, kwargs: dict, node: ast.AST | None) -> t.Any:
         out: list[t.Any] = []
